@@ -158,43 +158,6 @@ def unwrap_not(e):
         return e, neg
 
 
-def bool_switch_edges(body, ch, pred):
-    """For every switchInt whose (possibly negated) discriminant expression satisfies pred(expr):
-    returns {'true': {(bb, succ)}, 'false': {(bb, succ)}, 'sites': [bb]} - the CFG edges on which the
-    expression is true resp. false."""
-    out = {"true": set(), "false": set(), "sites": []}
-    for bb, blk in enumerate(body.blocks):
-        t = blk["t"]
-        if t["k"] != "switch" or body.tyix(t["dty"])["s"] != "bool":
-            continue
-        e, neg = unwrap_not(ch.origin(t["discr"]))
-        exact = True
-        if not pred(e):
-            # a predicate moved into a private helper: `fn sig_ok(&self) -> bool { verify_signature(..) }`.  The helper returning
-            # true implies the wrapped test was true (the converse only if the helper has no other way to return false)
-            inner, exact = helper_truth(getattr(body.unit, "program", None), e)
-            if inner is None or not pred(inner):
-                exact = False
-                if not helper_implies(getattr(body.unit, "program", None), e, pred):
-                    continue
-        out["sites"].append(bb)
-        zero = [tgt for v, tgt in t["targets"] if v == 0]
-        one = [tgt for v, tgt in t["targets"] if v == 1]
-        other = t["otherwise"]
-        false_t = zero if zero else ([other] if one else [])
-        true_t = one if one else ([other] if zero else [])
-        for tgt in false_t:
-            if neg or exact:
-                out["true" if neg else "false"].add((bb, tgt))
-        for tgt in true_t:
-            if not neg or exact:
-                out["false" if neg else "true"].add((bb, tgt))
-    return out
-
-
-_HELPER_TRUTH = {}
-
-
 def subst_params(e, args):
     """the callee's expression with its parameters replaced by the caller's argument expressions"""
     if isinstance(e, tuple):
@@ -206,55 +169,143 @@ def subst_params(e, args):
     return e
 
 
-def helper_implies(prog, e, pred, depth=0):
-    """`e` is a call of a workspace function returning bool that can return true only through the true edge of a test satisfying
-    pred (after substituting the arguments for its parameters): `if !check(..) { log; return false } true`"""
-    if prog is None or e[0] != "call" or depth > 1:
-        return False
-    callee = prog.bodies.get(e[1])
-    if callee is None or callee.is_promoted or callee.is_coroutine or callee.ty(0)["s"] != "bool" or callee.nblocks > 200:
-        return False
-    from .expr import Chaser
-    from .paths import Explorer
-    ch = Chaser(callee)
-    sub = bool_switch_edges(callee, ch, lambda x: pred(subst_params(x, e[2])))
-    if not sub["sites"] or not sub["true"]:
-        return False
-    found = Explorer(callee).explore(0, deleted_edges=sub["true"], accept=make_accept(callee, return_true=True))
-    return not found
+def _bool_targets(t):
+    zero = [tgt for v, tgt in t["targets"] if v == 0]
+    one = [tgt for v, tgt in t["targets"] if v == 1]
+    other = t["otherwise"]
+    false_t = zero if zero else ([other] if one else [])
+    true_t = one if one else ([other] if zero else [])
+    return true_t, false_t
 
 
-def helper_truth(prog, e, depth=0):
-    """(E, exact): for a call of a workspace function returning bool whose result is `E` or the constant false, the expression E
-    (in the callee's own terms) such that `call == true  =>  E == true`; exact when the callee returns E on every path"""
-    if prog is None or e[0] != "call" or depth > 2:
-        return None, False
-    callee = prog.bodies.get(e[1])
-    if callee is None or callee.is_promoted or callee.is_coroutine or callee.ty(0)["s"] != "bool" or callee.nblocks > 60:
-        return None, False
-    if callee.path in _HELPER_TRUTH and _HELPER_TRUTH[callee.path][0] is prog:
-        return _HELPER_TRUTH[callee.path][1]
-    from .expr import Chaser
-    ch = Chaser(callee)
-    exprs, consts = [], []
-    for d in callee.defs(0):
-        if d[0] == "stmt":
-            x = ch.rvalue(d[3], 0)
-            if x[0] == "const":
-                consts.append(bool(x[1]))
+def _is_false(x):
+    return x[0] == "const" and x[1] in (0, False)
+
+
+def switch_views(body, ch, depth=0):
+    """What each bool switch of `body` tells about which expression.  Yields (bb, expr, thunk) where thunk() returns
+    (T, F): the successor blocks of bb on which `expr` is known to be true resp. false.  Besides the switched expression
+    itself (negations stripped) this looks through
+      * flags:   `let ok = a && b; if !ok {..}` - the bool local is assigned `false` or the last operand E, so ok == true => E
+      * helpers: `if !self.sig_ok(h) { return false }` with `fn sig_ok(..) -> bool` in the workspace - every test the helper
+                 makes (parameters replaced by the arguments) is true / false on the caller's edge whenever the helper can
+                 produce that result only through the corresponding edge of the test."""
+    prog = getattr(body.unit, "program", None)
+    for bb, blk in enumerate(body.blocks):
+        t = blk["t"]
+        if t["k"] != "switch" or body.tyix(t["dty"])["s"] != "bool":
+            continue
+        e, neg = unwrap_not(ch.origin(t["discr"]))
+        true_t, false_t = _bool_targets(t)
+        if neg:
+            true_t, false_t = false_t, true_t
+        yield bb, e, (lambda T=tuple(true_t), F=tuple(false_t): (T, F))
+        # flag local
+        if e[0] == "local" and body.ty(e[1])["s"] == "bool" and len(body.defs(e[1])) > 1 and e[1] > body.argc:
+            exprs = []
+            has_true = False
+            for d in body.defs(e[1]):
+                x = ch.rvalue(d[3], 0) if d[0] == "stmt" else ch.call(d[2], d[1], 0)
+                if x[0] == "const":
+                    has_true = has_true or not _is_false(x)
+                else:
+                    exprs.append(x)
+            if len(exprs) == 1 and not has_true:
+                e2, neg2 = unwrap_not(exprs[0])
+                if not neg2:
+                    yield bb, e2, (lambda T=tuple(true_t): (T, ()))
+                else:
+                    yield bb, e2, (lambda T=tuple(true_t): ((), T))
+                e, true_for_helper = e2, (not neg2)
             else:
-                exprs.append(x)
-        elif d[0] == "call":
-            tt = d[2]
-            exprs.append(("call", tt.get("res") or tt.get("callee") or "?", [ch.origin(a) for a in tt["args"]], d[1]))
-    r = (None, False)
-    if len(exprs) == 1 and True not in consts:
-        x, neg = unwrap_not(exprs[0])
-        if not neg:
-            inner, ex2 = helper_truth(prog, x, depth + 1)
-            r = (inner, ex2 and not consts) if inner is not None else (x, not consts)
-    _HELPER_TRUTH[callee.path] = (prog, r)
+                continue
+        else:
+            true_for_helper = True
+        # helper
+        if e[0] == "call" and prog is not None and depth < 2:
+            callee = prog.bodies.get(e[1])
+            if callee is None or callee.is_promoted or callee.is_coroutine or callee.ty(0)["s"] != "bool" or callee.nblocks > 250:
+                continue
+            from .expr import Chaser
+            cch = Chaser(callee)
+            args = e[2]
+            # caller edges on which the helper returned true / false
+            if e is not None and true_for_helper:
+                H_T, H_F = tuple(true_t), tuple(false_t)
+            else:
+                H_T, H_F = (), tuple(true_t)      # only "flag true => helper returned false" is known
+            # (1) tests inside the helper
+            for sb, e3, th3 in switch_views(callee, cch, depth + 1):
+                e3s = subst_params(e3, args)
+
+                def thunk(sb=sb, th3=th3, callee=callee, H_T=H_T, H_F=H_F):
+                    T3, F3 = th3()
+                    t_edges = {(sb, x) for x in T3}
+                    f_edges = {(sb, x) for x in F3}
+                    T, F = set(), set()
+                    if t_edges and not _reaches_return(callee, True, t_edges):
+                        T |= set(H_T)         # helper true only via "test true"
+                    if f_edges and not _reaches_return(callee, True, f_edges):
+                        F |= set(H_T)         # helper true only via "test false"
+                    if f_edges and not _reaches_return(callee, False, f_edges):
+                        F |= set(H_F)         # helper false only via "test false"
+                    if t_edges and not _reaches_return(callee, False, t_edges):
+                        T |= set(H_F)
+                    return tuple(T), tuple(F)
+                yield bb, e3s, thunk
+            # (2) the helper's result is the test itself: `fn ok(..) -> bool { a <= b }`, or `false` / the test
+            exprs, consts = [], []
+            for d in callee.defs(0):
+                x = cch.rvalue(d[3], 0) if d[0] == "stmt" else cch.call(d[2], d[1], 0)
+                (consts if x[0] == "const" else exprs).append(x)
+            if len(exprs) == 1 and all(_is_false(c) for c in consts):
+                e4, neg4 = unwrap_not(exprs[0])
+                e4s = subst_params(e4, args)
+                exact = not consts
+                if not neg4:
+                    yield bb, e4s, (lambda H_T=H_T, H_F=H_F, exact=exact: (H_T, H_F if exact else ()))
+                else:
+                    yield bb, e4s, (lambda H_T=H_T, H_F=H_F, exact=exact: (H_F if exact else (), H_T))
+
+
+_REACH_MEMO = {}
+
+
+def _reaches_return(callee, value, deleted_edges):
+    """can `callee` (returning bool) return `value` without traversing any of deleted_edges?"""
+    from .paths import Explorer
+    key = (id(callee), value, tuple(sorted(deleted_edges)))
+    if key in _REACH_MEMO:
+        return _REACH_MEMO[key]
+
+    def accept(bb, env):
+        t = callee.term(bb)
+        if t["k"] == "return":
+            v = env.get(0)
+            if v is None or bool(v) == value:
+                return "return"
+        return None
+    r = bool(Explorer(callee).explore(0, deleted_edges=set(deleted_edges), accept=accept))
+    _REACH_MEMO[key] = r
     return r
+
+
+def bool_switch_edges(body, ch, pred):
+    """For every switchInt whose (possibly negated) discriminant expression satisfies pred(expr) - directly, through a bool flag
+    or through a workspace helper (see switch_views): returns {'true': {(bb, succ)}, 'false': {(bb, succ)}, 'sites': [bb]} -
+    the CFG edges on which the expression is true resp. false."""
+    out = {"true": set(), "false": set(), "sites": []}
+    for bb, e, thunk in switch_views(body, ch):
+        if not pred(e):
+            continue
+        T, F = thunk()
+        if not T and not F:
+            continue
+        if bb not in out["sites"]:
+            out["sites"].append(bb)
+        out["true"] |= {(bb, x) for x in T}
+        out["false"] |= {(bb, x) for x in F}
+    return out
 
 
 def promoted_value(prog, body, const_expr):
@@ -335,14 +386,11 @@ def enum_compare_edges(prog, body, ch, adt_suffix, field, variants_of_interest):
 
 def compare_edges(body, ch, pred):
     """Comparisons `a == b` / `a != b` (MIR BinaryOp on scalars, PartialEq::eq/ne calls on aggregates) whose
-    operand expressions satisfy pred(a, b) (tried in both orders).
+    operand expressions satisfy pred(a, b) (tried in both orders); switched on directly, kept in a bool flag or made
+    inside a workspace helper (switch_views).
     Returns {'eq': edges on which a == b, 'ne': edges on which a != b, 'sites': [bb]}."""
     out = {"eq": set(), "ne": set(), "sites": []}
-    for bb, blk in enumerate(body.blocks):
-        t = blk["t"]
-        if t["k"] != "switch" or body.tyix(t["dty"])["s"] != "bool":
-            continue
-        e, neg = unwrap_not(ch.origin(t["discr"]))
+    for bb, e, thunk in switch_views(body, ch):
         if e[0] == "bin" and e[1] in ("Eq", "Ne"):
             a, b, is_eq = e[2], e[3], e[1] == "Eq"
         elif e[0] == "call" and e[1] in ("std::cmp::PartialEq::eq", "std::cmp::PartialEq::ne") and len(e[2]) == 2:
@@ -351,30 +399,23 @@ def compare_edges(body, ch, pred):
             continue
         if not (pred(a, b) or pred(b, a)):
             continue
-        if neg:
-            is_eq = not is_eq
-        out["sites"].append(bb)
-        zero = [tgt for v, tgt in t["targets"] if v == 0]
-        one = [tgt for v, tgt in t["targets"] if v == 1]
-        other = t["otherwise"]
-        false_t = zero if zero else ([other] if one else [])
-        true_t = one if one else ([other] if zero else [])
-        for tgt in true_t:
+        T, F = thunk()
+        if not T and not F:
+            continue
+        if bb not in out["sites"]:
+            out["sites"].append(bb)
+        for tgt in T:
             out["eq" if is_eq else "ne"].add((bb, tgt))
-        for tgt in false_t:
+        for tgt in F:
             out["ne" if is_eq else "eq"].add((bb, tgt))
     return out
 
 
 def order_edges(body, ch, pred):
     """Ordering comparisons `a < b`, `a <= b`, `a > b`, `a >= b` with pred(a, b) true for the operands as
-    written. Returns list of dict(bb, op, a, b, true_edges, false_edges)."""
+    written (directly, through a flag or a helper). Returns list of dict(bb, op, a, b, true_edges, false_edges)."""
     out = []
-    for bb, blk in enumerate(body.blocks):
-        t = blk["t"]
-        if t["k"] != "switch" or body.tyix(t["dty"])["s"] != "bool":
-            continue
-        e, neg = unwrap_not(ch.origin(t["discr"]))
+    for bb, e, thunk in switch_views(body, ch):
         if e[0] == "bin" and e[1] in ("Lt", "Le", "Gt", "Ge"):
             op, a, b = e[1], e[2], e[3]
         elif e[0] == "call" and e[1] in ("std::cmp::PartialOrd::lt", "std::cmp::PartialOrd::le", "std::cmp::PartialOrd::gt", "std::cmp::PartialOrd::ge") and len(e[2]) == 2:
@@ -388,15 +429,11 @@ def order_edges(body, ch, pred):
             op, a, b = flip[op], b, a
         else:
             continue
-        if neg:
-            op = {"Lt": "Ge", "Le": "Gt", "Gt": "Le", "Ge": "Lt"}[op]
-        zero = [tgt for v, tgt in t["targets"] if v == 0]
-        one = [tgt for v, tgt in t["targets"] if v == 1]
-        other = t["otherwise"]
-        false_t = zero if zero else ([other] if one else [])
-        true_t = one if one else ([other] if zero else [])
+        T, F = thunk()
+        if not T and not F:
+            continue
         out.append({"bb": bb, "op": op, "a": a, "b": b,
-                    "true_edges": {(bb, x) for x in true_t}, "false_edges": {(bb, x) for x in false_t}})
+                    "true_edges": {(bb, x) for x in T}, "false_edges": {(bb, x) for x in F}})
     return out
 
 
